@@ -253,8 +253,12 @@ func (e *Engine) runArm(fr *frame, blk, prev, target *ssa.BasicBlock, depth int,
 					goto cont
 				}
 			case *ssa.Store:
-				a, ok := x.Addr.(ssa.Value)
-				if !ok || !onlyFeedsNoop(a, 0) {
+				a, ok := x.Addr.(*ssa.IndexAddr)
+				if !ok {
+					return nil, false
+				}
+				al, ok := a.X.(*ssa.Alloc)
+				if !ok || !onlyFeedsNoop(al, 0) {
 					return nil, false
 				}
 				// dropped: the destination only feeds a no-op logging call
@@ -342,8 +346,9 @@ func (e *Engine) mergeIf(fr *frame, ifBlk *ssa.BasicBlock, c *Term, depth int) (
 	return j, true
 }
 
-// onlyFeedsNoop reports whether every (transitive) use of v ends in an argument of a no-op call
-// (the variadic argument array of a logging call: Alloc -> IndexAddr -> Store, Slice -> Call).
+// onlyFeedsNoop reports whether every (transitive) use of v ends in an argument of a no-op call:
+// the variadic argument array of a logging call has the shape
+//   a = Alloc [n]interface{}; p = IndexAddr a i; Store p (MakeInterface x); s = Slice a; Call DPrintf(.., s)
 func onlyFeedsNoop(v ssa.Value, depth int) bool {
 	if depth > 4 {
 		return false
@@ -352,6 +357,8 @@ func onlyFeedsNoop(v ssa.Value, depth int) bool {
 	if refs == nil || len(*refs) == 0 {
 		return false
 	}
+	_, isAlloc := v.(*ssa.Alloc)
+	_, isIdx := v.(*ssa.IndexAddr)
 	for _, r := range *refs {
 		switch u := r.(type) {
 		case *ssa.Call:
@@ -360,17 +367,26 @@ func onlyFeedsNoop(v ssa.Value, depth int) bool {
 				return false
 			}
 		case *ssa.IndexAddr:
-			if !onlyFeedsNoop(u, depth+1) {
+			if !isAlloc || u.X != v || !onlyFeedsNoop(u, depth+1) {
 				return false
 			}
 		case *ssa.Slice:
-			if !onlyFeedsNoop(u, depth+1) {
+			if !isAlloc || !onlyFeedsNoop(u, depth+1) {
 				return false
 			}
 		case *ssa.Store:
-			// storing v itself somewhere (as a value) is only fine if the destination is such an array
-			if u.Val == v {
-				if a, ok := u.Addr.(ssa.Value); !ok || !onlyFeedsNoop(a, depth+1) {
+			if u.Addr == v {
+				// a store into an element of the argument array
+				if !isIdx {
+					return false
+				}
+			} else if u.Val == v {
+				a, ok := u.Addr.(*ssa.IndexAddr)
+				if !ok {
+					return false
+				}
+				al, ok := a.X.(*ssa.Alloc)
+				if !ok || !onlyFeedsNoop(al, depth+1) {
 					return false
 				}
 			}
